@@ -526,8 +526,14 @@ func runC13(r *Runner, tier string, rng *Rng) {
 			return r
 		}
 		r.St.Count("snapshots")
+		_ = after
+		if dels == nil {
+			dels = []any{}
+		}
+		// the model (Verify.runStep) computes all four snapshots from the digests of the directory
+		// before the command and of what the command writes and deletes
 		batch = append(batch, Case{Op: "snapshots", Args: map[string]any{"before": before, "writes": writes, "dels": dels, "cmd": []any{"sh", "-c", script + "true"},
-			"expect": map[string]any{"run_materials": dg(before), "run_products": dg(after), "rec_materials": dg(before), "rec_products": dg(after)}}, Feat: fmt.Sprintf("snap:%d:%d", len(writes), len(dels))})
+			"before_d": dg(before), "writes_d": dg(writes)}, Feat: fmt.Sprintf("snap:%d:%d", len(writes), len(dels))})
 		if len(batch) >= 20 {
 			flush()
 		}
